@@ -36,7 +36,10 @@ impl RustDocument {
     }
 
     pub fn extend(&mut self, other: RustDocument) {
-        self.namespace_lookup.extend(other.namespace_lookup);
+        // the prefixes of an imported file must not rebind the prefixes this file already uses
+        for (prefix, namespace) in other.namespace_lookup {
+            self.namespace_lookup.entry(prefix).or_insert(namespace);
+        }
 
         extend_no_duplicates(&mut self.namespaces, other.namespaces);
         extend_no_duplicates(&mut self.target_namespaces, other.target_namespaces);
